@@ -12,12 +12,13 @@ ROOT = os.path.dirname(os.path.dirname(os.path.abspath(__file__)))
 LEAN = os.path.join(ROOT, "lean")
 BUILD = os.path.join(ROOT, "build")
 HARNESS = os.path.join(ROOT, "harness")
+REPO = os.environ.get("KITOKEN_REPO", "/repo")
 KVH = os.path.join(BUILD, "cargo", "debug", "kvh")
 KDRIVER = os.path.join(LEAN, ".lake", "build", "bin", "kdriver")
 ALLOWED_AXIOMS = {"propext", "Classical.choice", "Quot.sound"}
 FORBIDDEN = re.compile(r"\bsorry\b|\badmit\b|^axiom\s|native_decide|bv_decide|implemented_by|\bunsafe\s|maxHeartbeats\s+0")
 NCPU = os.cpu_count() or 4
-SLOT_OPS = {"ENC", "DEC", "BPE", "UNI", "WP", "TODEF", "SER"}
+SLOT_OPS = {"ENC", "DEC", "BPE", "UNI", "WP", "TODEF", "SER", "REC", "RT", "ENC2", "ENC7", "ENC9", "ENC18", "REF9"}
 
 sys.path.insert(0, os.path.dirname(os.path.abspath(__file__)))
 import props  # per-property metadata
@@ -161,6 +162,7 @@ def audit(prop, report, thorough):
 
 
 KVH_PLAIN = os.path.join(BUILD, "cargo-plain", "debug", "kvh")
+PYDIR = os.path.join(BUILD, "py")
 
 
 def build_harness(report, prop=None):
@@ -173,6 +175,17 @@ def build_harness(report, prop=None):
         report["cargo_build_plain"] = {"ok": rc == 0, "log": out[-6000:] if rc != 0 else ""}
         if rc != 0:
             report["cargo_build"] = {"ok": False, "log": "plain build failed: " + out[-6000:]}
+    if rc == 0 and prop == "C20":
+        # the Python extension module, built from /repo's working tree into /verif/build (never /repo/target)
+        rc, out = sh(["cargo", "build", "--offline", "-p", "kitoken-python", "--target-dir", os.path.join(BUILD, "cargo-py"),
+                      "--config", "profile.dev.opt-level=1", "--config", 'profile.dev.package."*".opt-level=2',
+                      "--config", "profile.dev.debug=false"], cwd=REPO, timeout=3600)
+        report["cargo_build_python"] = {"ok": rc == 0, "log": out[-6000:] if rc != 0 else ""}
+        if rc == 0:
+            os.makedirs(PYDIR, exist_ok=True)
+            shutil.copyfile(os.path.join(BUILD, "cargo-py", "debug", "libkitoken.so"), os.path.join(PYDIR, "kitoken.abi3.so"))
+        else:
+            report["cargo_build"] = {"ok": False, "log": "python binding build failed: " + out[-6000:]}
     return rc == 0
 
 
@@ -286,7 +299,8 @@ def main():
             else:
                 ops_files.append(o)
         rc, out = sh([KVH, "gen", prop, tier, str(seed), os.path.join(work, "gen")], timeout=6 * 3600,
-                     env={"KVH_SHARDS": str(NCPU), "KVH_PLAIN": KVH_PLAIN})
+                     env={"KVH_SHARDS": str(NCPU), "KVH_PLAIN": KVH_PLAIN, "KVH_PYDIR": PYDIR,
+                          "KVH_PYDRIVE": os.path.join(ROOT, "tools", "pydrive.py")})
         if rc != 0:
             cases["driver_errors"].append("kvh gen failed rc=%d: %s" % (rc, out[-2000:]))
         report["gen_log"] = out[-3000:]
